@@ -139,7 +139,18 @@ func runMutant(repo, verif, prop, file string) (bool, string) {
 			return false, "mutant does not apply: " + err.Error()
 		}
 	}
-	out := runCheck(checkOpts{prop: prop, tier: "quick", repo: repo, verif: verif, overlay: overlay, quiet: true, noEvidence: true, workers: 4, noReplay: !selftestReplay, mutantTag: strings.TrimSuffix(filepath.Base(file), ".json")})
+	tag := strings.TrimSuffix(filepath.Base(file), ".json")
+	out := runCheck(checkOpts{prop: prop, tier: "quick", repo: repo, verif: verif, overlay: overlay, quiet: true, noEvidence: true, workers: 4, noReplay: !selftestReplay, mutantTag: tag})
+	ok, msg := judgeMutant(m, out)
+	if ok {
+		// the scripts of an expected outcome are of no further use (a corpus run would otherwise leave gigabytes behind)
+		os.RemoveAll(filepath.Join(verif, "out", "_selftest", prop+"-"+tag))
+		os.RemoveAll(filepath.Join(verif, "out", "_selftest", "replay-"+prop+"-"+tag))
+	}
+	return ok, msg
+}
+
+func judgeMutant(m Mutant, out *CheckOutcome) (bool, string) {
 	var failed []string
 	for _, r := range out.Results {
 		if !r.OK {
